@@ -58,7 +58,7 @@ def numeric_ref(t):
     return '&#' + body + (';' if not t.chance(30) else '')
 
 
-INLINE += ['a\tb', 'foo\tbar', 'x\t', '&#1114111;', '&#1114112;', '&#x10FFFF;', '&#x110000;', '&#xD800;', '&#9999999;', '&#xFFFFFF;', '&#128;', '&#x80;', '\x00', '\ufeff']
+INLINE += ['a\tb', 'foo\tbar', 'x\t', 'a>\tb', 'q>\t', '&#1114111;', '&#1114112;', '&#x10FFFF;', '&#x110000;', '&#xD800;', '&#9999999;', '&#xFFFFFF;', '&#128;', '&#x80;', '\x00', '\ufeff']
 
 
 def line_doc(t, max_lines=14):
